@@ -57,6 +57,11 @@ def jobs(prop, tier, seed):
         out.append(dict(harness="C03", variant="std", pid=f"std:{name}", std=name, opts={}, bounds={}, budget_s=30))
     for pid in ("Node", "Tree", "Mutual"):
         out.append(dict(harness="C03", variant="deep", pool="data", pid=pid, opts={}, bounds={}, budget_s=30))
+    # an int beyond CPython's int -> str digit limit (concrete: its size is the point)
+    for pid in ("int", "str", "float", "bool", "u(int,str)", "list(int)", "map(int)", "lit_mix", "enum", "any", "A"):
+        if pid in pools.ids("data", "thorough"):
+            for o in ({}, {"coerce": True}):
+                out.append(dict(harness="C03", variant="digits", pool="data", pid=pid, opts=o, bounds={}, budget_s=20))
     for cls in PRIMS:
         out.append(
             dict(harness="C03", variant="coerce", pid=f"coerce({cls})", cls=cls, opts={},
@@ -267,8 +272,46 @@ class Deep:
         return None
 
 
+class Digits:
+    """10**5000 (more digits than CPython >= 3.11 converts to str by default) at the root, in
+    a list and under a key: a value or ValidationError, nothing else"""
+
+    def __init__(self, job):
+        from apischema import ValidationError, deserialization_method
+        from vf.harness.common import api_kwargs
+
+        self.job = job
+        self.prog = program_of(job)
+        self.method = deserialization_method(self.prog.tp, **api_kwargs(job))
+        self.VE = ValidationError
+        self.functions = method_classes(self_of(self.method)) + ["apischema.deserialization.coercion.coerce"]
+        self.expect_tags = ["ran"]
+        self.assumptions = ["concrete datum 10**5000 (or its negation) at the root, in a list, under a key"]
+        self.relax = ()
+
+    def body(self, ctx: Ctx):
+        big = 10**5000
+        shape = ctx.pick(["root", "negative", "list", "key", "field"], "shape")
+        d = {"root": big, "negative": -big, "list": [big], "key": {"k0": big}, "field": {"a": big}}[shape]
+        ctx.witness = f"10**5000 as {shape}"
+        ctx.run_phase()
+        ctx.notes["tag:ran"] = True
+        try:
+            self.method(d)
+        except self.VE as e:
+            try:
+                e.errors
+            except Exception as e2:
+                return Failure("crash", "errors:" + type(e2).__name__, witness=ctx.witness, extra={"exc": type(e2).__name__})
+        except Exception as e:
+            return Failure("crash", type(e).__name__, witness=ctx.witness, extra={"exc": type(e).__name__})
+        return None
+
+
 def make(job):
     v = job.get("variant")
     if v == "deep":
         return Deep(job)
+    if v == "digits":
+        return Digits(job)
     return CoerceUnit(job) if v == "coerce" else StdTotal(job) if v == "std" else E2E(job)
